@@ -142,7 +142,8 @@ where
     Traits: ?Sized + Trait, 
     M: MemBuilder,
     IterItem: IteratorItem<'a, AnyVecPtr<Traits, M>>,
-    AnyVec<Traits, M>: Send
+    // Sending the iterator is sending its (future) items.
+    IterItem::Item: Send
 {}
 #[allow(renamed_and_removed_lints, suspicious_auto_trait_impls)]
 unsafe impl<'a, T, M, IterItem> Send
